@@ -166,7 +166,8 @@ def model_canon(ans):
 def server_line(c):
     ck = 'h' if c['cancel'] == 'h' else 's:%s:%s' % (U.f2bits(c['cancel'][1]), c['cancel'][2])
     return ' '.join(['S', U.f2bits(c['a']), str(len(c['values']))] + [cps(v) for v in c['values']] +
-                    [U.f2bits(c['dur']), c['fin'], ck, '1' if c.get('trailers_first') else '0'])
+                    [U.f2bits(c['dur']), c['fin'], ck, '1' if c.get('trailers_first') else '0',
+                     '0' if c.get('reply', 'direct') == 'direct' else '1'])
 
 
 STATUS_NAME = {'0': 'ok', '2': 'unknown', '4': 'deadline', '5': 'own', None: 'none'}
@@ -176,7 +177,7 @@ def server_canon(c, obs):
     out = {'status': STATUS_NAME.get(obs['status'], 'status-' + str(obs['status'])),
            'started': obs['started'] is not None,
            'cancel_at': '-' if obs['cancel_at'] is None else U.f2bits(obs['cancel_at']).lstrip('0') or '0'}
-    if not c.get('trailers_first'):
+    if not c.get('trailers_first') and c.get('reply', 'direct') != 'paused':
         out['end_at'] = '-' if obs['status_at'] is None else U.f2bits(obs['status_at']).lstrip('0') or '0'
     return out
 
@@ -186,7 +187,7 @@ def server_model_canon(c, ans):
     if len(w) != 5:
         return {'error': ans}
     out = {'status': w[0], 'started': w[1] == '1', 'cancel_at': w[3]}
-    if not c.get('trailers_first'):
+    if not c.get('trailers_first') and c.get('reply', 'direct') != 'paused':
         out['end_at'] = w[4]
     return out
 
@@ -374,7 +375,9 @@ def do_server(res, case, batch):
     res.count('server:headers:%d' % len(case['values']))
     res.count('server:status:' + canon['status'])
     res.count('server:cancel:' + (case['cancel'] if case['cancel'] == 'h' else 's-' + case['cancel'][2]))
-    res.signatures.add(('s', kinds, case.get('rel'), case['fin'],
+    res.count('server:reply:' + case.get('reply', 'direct'))
+    res.count('server:card:' + case.get('card', 'SS'))
+    res.signatures.add(('s', kinds, case.get('rel'), case['fin'], case.get('reply', 'direct'), case.get('card', 'SS'),
                         case['cancel'] if case['cancel'] == 'h' else case['cancel'][2],
                         bool(case.get('trailers_first')), canon['status'], canon['cancel_at'] != '-'))
     res.sample({'case': case, 'observed': canon}, limit=8)
@@ -411,7 +414,7 @@ def server_cases(rng, n, full):
     """header multisets x handler duration relative to the deadline x cancellation behaviour"""
     out = []
 
-    def add(values, rel, fin, cancel, a, tf=False):
+    def add(values, rel, fin, cancel, a, tf=False, reply='direct', card='SS'):
         vals = [wire_value(v) for v in values]
         dur = None
         if values and all(v is not None for v in vals) and min(vals) > 0:
@@ -431,8 +434,13 @@ def server_cases(rng, n, full):
             dur = {'before': 0.5, 'equal': 1.0, 'after': 2.0, 'long': 5000.0}[rel]
         if a >= 2.0 ** 23 and not ('1n' in values or any(v is None for v in vals)):
             return      # asyncio never fires a timer when time() + 1e-9 == time(): no sleeping up there
-        out.append({'side': 's', 'a': a, 'values': list(values), 'dur': dur, 'rel': rel, 'fin': fin,
-                    'cancel': cancel, 'trailers_first': tf})
+        if reply == 'paused' and (rel == 'before' or tf):
+            return      # a paused transport would block the handler's own sends, not only the reply
+        c = {'side': 's', 'a': a, 'values': list(values), 'dur': dur, 'rel': rel, 'fin': fin,
+             'cancel': cancel, 'trailers_first': tf, 'reply': reply, 'card': card}
+        if reply == 'paused':
+            c['resume'] = min(3 * dur + 2.0, 6500.0) if a < 2.0 ** 23 else 1.0
+        out.append(c)
 
     cancels = ['h'] + [('s', 0.5, f) for f in FINS]
     if full:
@@ -453,6 +461,17 @@ def server_cases(rng, n, full):
             add(['1S'], 'after', fin, 'h', 3.0, tf=True)
         add(['1n'], 'after', 'ret', 'h', BIG)           # absorbed: fl(now + 1e-9) == now -> expired
         add(['1n', '1S'], 'after', 'ret', ('s', 0.5, 'ret'), BIG)
+        # expired / fired deadline x the reply path suspends or not x 4 cardinalities
+        for card in ('UU', 'US', 'SU', 'SS'):
+            for reply in ('direct', 'listener', 'paused'):
+                for values, a in [(['0n'], 3.0), (['0m'], 3.0), (['1S', '0S'], 1000.25), (['1n'], BIG),
+                                  (['1s'], 3.0)]:
+                    add(values, 'after', 'ret', 'h', a, reply=reply, card=card)
+                for values in (['1S'], ['2S', '500m'], ['1n']):
+                    for rel in ('before', 'equal', 'after'):
+                        for cancel in cancels:
+                            add(values, rel, 'ret', cancel, 3.0, reply=reply, card=card)
+                add([], 'before', 'ret', 'h', 3.0, reply=reply, card=card)
     for _ in range(n):
         k = rng.choice([0, 1, 1, 2, 2, 3])
         values = []
@@ -461,7 +480,9 @@ def server_cases(rng, n, full):
             values.append(rng.choice(VALID) if r < 0.7 else rng.choice(ZERO) if r < 0.8 else
                           rng.choice(INVALID))
         add(values, rng.choice(['before', 'equal', 'after', 'long']), rng.choice(FINS),
-            rng.choice(cancels), rng.choice(ARRIVALS), tf=rng.random() < 0.05)
+            rng.choice(cancels), rng.choice(ARRIVALS + [BIG]), tf=rng.random() < 0.05,
+            reply=rng.choice(['direct', 'direct', 'listener', 'paused']),
+            card=rng.choice(['UU', 'US', 'SU', 'SS']))
     return out
 
 
@@ -495,7 +516,9 @@ def run(ctx):
                 'instant; plus calls without timeout, expired / negative timeouts, explicit deadlines, a '
                 'context left before any request.  server: 0-3 grpc-timeout headers (valid / zero / invalid) x '
                 'handler duration {before, equal, after, long after the deadline} x handler end {return, '
-                'raise, raise GRPCError, raise TimeoutError} x {honour, swallow then ...} x arrival instant. '
+                'raise, raise GRPCError, raise TimeoutError} x {honour, swallow then ...} x arrival instant x '
+                'reply path {direct, a SendTrailingMetadata listener that awaits, transport paused then '
+                'resumed} x 4 cardinalities. '
                 'distinct = distinct (op, reason, lift, unit range, delay class, per-call results) resp. '
                 '(header classes, relation, behaviour, status) tuples')
     batch = []
